@@ -25,15 +25,23 @@ def build(tier):
     units = [u]
     RECUR = '_ZN9CspSolver14solveRecursiveEiRSt6vectorIiSaIiEE'
     ARC = '_ZN9CspSolver17makeArcConsistentEv.0'
-    # solve() through std::vector::assign + recursion: symex did not finish within 16 GB even for 2 variables / 1 constraint (see DESIGN.md); kept as an extended thorough-tier attempt only
-    configs = [] if tier == 'quick' else [(2, 1, 2, False, ('thorough',))]
-    for (nv, nc, w, core, tiers) in configs:
-        us = Unit('solve%d%d%d' % (nv, nc, w), 'C20/csp.cpp', ['h_solve'], defines={'MAXV': nv, 'MAXC': nc, 'WIDTH': w},
-                  allow_extern=[r'_ZStls.*', r'_ZNSols.*'])
+    # solve() itself (std::vector::assign + recursion) did not finish symbolic execution within 16 GB even for 2 variables / 1 constraint;
+    # the DIRECT variant calls the two real phases makeArcConsistent() and solveRecursive() in solve()'s order, with the vector
+    # boilerplate of solve() (values := -1, varToConstr built from the constraints) done by the harness.
+    configs = [(2, 2, 2, True)] if tier == 'quick' else [(2, 2, 2, True), (2, 2, 3, False), (3, 2, 2, False)]
+    BITS = {'_ZN7BitUtil8firstBitEm': 'model_firstBit', '_ZN7BitUtil7lastBitEm': 'model_lastBit', '_ZN7BitUtil8bitCountEm': 'model_bitCount'}
+    ut = Unit('bitlemmas', 'C01/tables.cpp', ['h_bits', 'h_bitcount'])
+    units.append(ut)
+    obs.append(Ob('L-bits', ut, 'h_bits', 'lemma: firstBit/lastBit == ctz/clz for all masks (justifies the substitution in O3)', unwind=3, timeout=900, functions=['BitUtil::firstBit/lastBit'], bounds='all non-zero 64-bit masks'))
+    obs.append(Ob('L-bitcount', ut, 'h_bitcount', 'lemma: bitCount == popcount for all masks', unwind=65, timeout=1800, backend='kissat', functions=['BitUtil::bitCount'], bounds='all 64-bit masks'))
+    for (nv, nc, w, core) in configs:
+        us = Unit('solve%d%d%d' % (nv, nc, w), 'C20/csp.cpp', ['h_solve'], defines={'MAXV': nv, 'MAXC': nc, 'WIDTH': w, 'DIRECT': None}, aliases=BITS, lemmas=['L-bits', 'L-bitcount'],
+                  allow_extern=[r'_ZStls.*', r'_ZNSols.*', r'_ZN9CspSolver5solve.*'])
         units.append(us)
         arcbound = nc * (1 + nv * w) + 1
-        obs.append(Ob('O3-solve-%dv%dc-w%d' % (nv, nc, w), us, 'h_solve', 'solve() is exact: true => returned assignment in domains and satisfies all constraints; false => no assignment exists (universally quantified)',
-           unwind=max(w + 2, nc + 2, 5), unwindset='%s:%d,%s:%d' % (ARC, arcbound, RECUR, nv + 1), core=core, tiers=tiers, timeout=3000 if not core else 1500, mem_gb=16,
-           functions=['CspSolver::solve', 'CspSolver::solveRecursive', 'CspSolver::getBitVal', 'CspSolver::makeArcConsistent'],
+        obs.append(Ob('O3-solve-%dv%dc-w%d' % (nv, nc, w), us, 'h_solve', 'arc consistency followed by the backtracking search is exact: true => returned assignment in domains and satisfies all constraints; false => no assignment exists (universally quantified)',
+           unwind=max(w + 2, nc + 2, 5), unwindset='%s:%d,%s:%d' % (ARC, arcbound, RECUR, nv + 1), core=core, timeout=3000 if not core else 1500, mem_gb=16, backend='kissat',
+           functions=['CspSolver::makeArcConsistent', 'CspSolver::solveRecursive', 'CspSolver::getBitVal', 'BitSet ops'],
+           stubs=['the std::vector::assign boilerplate of CspSolver::solve() is performed by the harness (values := -1, varToConstr from the constraints)'],
            bounds='<=%d variables, <=%d constraints, domain window width %d at any base in [-16,47], |c| <= width+1, all 4 preference orders, any v1/v2 incl. self constraints; arc-consistency loop bound %d = nConstr*(1+total domain size)+1, recursion depth %d (both enforced by unwinding assertions)' % (nv, nc, w, arcbound, nv + 1)))
     return units, obs
